@@ -19,6 +19,7 @@ class Report:
         self.samples = []
         self.violations = []
         self.known = []
+        self.deferred = []     # histories left unjudged because the harness itself failed on them (exit 2 unless a violation is found elsewhere)
         self.notes = []
         self.assumptions = []
         self.stages = {}
@@ -103,9 +104,13 @@ class HarnessCrash(Inconclusive):
         self.cmd, self.part, self.rc, self.tail = cmd, part, rc, tail
 
 
-def isolate_crash(rep, hc, stage):
+def isolate_crash(rep, hc, stage, prefix_check=None):
     """Find the history that kills the harness by running the part's histories one per process; a history that
-    reproducibly crashes a fresh process is a behaviour of the real code (the library took the process down)."""
+    reproducibly crashes a fresh process is a behaviour of the real code (the library took the process down).
+    When the panic is raised by the harness's own bookkeeping (e.g. a handle it no longer knows), the longest prefix of the
+    history that still executes is validated on its own (prefix_check): if the specification rejects it, the real code had
+    already diverged from the model before the harness lost track - that rejection is the verdict.  Otherwise the history is
+    left unjudged (rep.deferred: the check ends inconclusive unless a violation is found elsewhere)."""
     exe = vlib.build_harness()
     with open(hc.part) as f:
         lines = f.read().split("\n")
@@ -131,7 +136,25 @@ def isolate_crash(rep, hc, stage):
             # harness itself (main.*) with no library frame above it is a defect of the HARNESS (never a verdict)
             frames = [x.split("(")[0].strip() for x in tail.split("\n") if re.match(r"^(main\.|github\.com/onflow/atree)", x.strip())]
             if frames and frames[0].startswith("main.") and "fatal error: stack overflow" not in tail and "library call failed:" not in tail:
-                raise Inconclusive("the harness itself panicked (defect of the machinery, not a verdict): " + tail[:600])
+                ops = json.loads(h)
+                if prefix_check is not None and len(ops) > 2:
+                    lo, hi, best = 1, len(ops) - 1, 0
+                    while lo <= hi:           # dying is monotone in the prefix length
+                        mid = (lo + hi) // 2
+                        open(hf, "w").write(hdr + "\n" + json.dumps(ops[:mid]) + "\n")
+                        try:
+                            dies = subprocess.run([exe] + hc.cmd + ["-in", hf, "-out", os.path.join(d, "o.ndjson")], capture_output=True, text=True, timeout=120).returncode != 0
+                        except subprocess.TimeoutExpired:
+                            dies = True
+                        if dies:
+                            hi = mid - 1
+                        else:
+                            best, lo = mid, mid + 1
+                    if best >= 2 and prefix_check(hdr, ops[:best]):
+                        return True
+                rep.deferred.append("stage %s: the harness itself panicked (defect of the machinery, not a verdict): %s" % (stage, tail[:600]))
+                log("UNJUDGED history in stage %s (harness panic): %s" % (stage, tail[:300].replace("\n", " | ")))
+                return True
             sig = "crash:%s" % hc.cmd[0]
             first = [x for x in tail.split("\n") if x.startswith("fatal error") or x.startswith("panic") or "timeout" in x]
             what = "the library takes the process down (%s) while executing a valid history of %d ops" % (first[0] if first else "fatal runtime error", len(json.loads(h)))
@@ -273,7 +296,13 @@ def hist_stage(rep, stage, run_cmd, engine, trace_module, tcfg, hist_files, mode
     try:
         traces, sums = run_parts(run_cmd + ["-mode", mode], hist_files, stage)
     except HarnessCrash as hc:
-        if isolate_crash(rep, hc, stage):
+        def prefix_check(hdr, ops):
+            f = os.path.join(vlib.scratch(), "%s-prefix-%d.ndjson" % (stage, random.randrange(1 << 30)))
+            open(f, "w").write(hdr + "\n" + json.dumps(ops) + "\n")
+            before = len(rep.violations) + len(rep.known)
+            hist_stage(rep, stage + "-prefix", run_cmd, engine, trace_module, tcfg, [f], "full", what_prefix, sigfn, consts, tkey)
+            return len(rep.violations) + len(rep.known) > before
+        if isolate_crash(rep, hc, stage, None if stage.endswith("-prefix") else prefix_check):
             rep.stages[stage] = {"crashed": True}
             return 0
         raise
